@@ -4,9 +4,9 @@ TARGET = dict(
           "into payloads of 1..184 octets (pointer fields, several sections per payload, 0xff stuffing, payload ends biased to 1-2 octets into a header or exactly on a section end, optional lead-in), "
           "delivered as single blocks / windows / chains of pieces, optionally with flagged discontinuities, dropped payloads, forbidden headers or unflagged corruption; "
           "non-trivial = a section crossing >= 2 payloads with the cut inside its 3-octet header, or two sections in one payload. "
-          "split: <= 24 operations add output (filter subset of mask, 1..12 octets) / remove output / section (leading octets derived from existing filters, possibly shorter than a filter, possibly segmented); "
+          "split: <= 24 operations add output (filter subset of mask, 1..12 octets) / remove output / section (leading octets derived from existing filters, possibly shorter than a filter, possibly segmented; in a quarter of the configurations one allocation inside the pipe is refused while it handles a section: an output then gets the whole section once or nothing); "
           "non-trivial = some output matched and some output did not, over >= 2 sections. "
-          "join: <= 24 operations add input / remove input / section on input i / change of output; non-trivial = >= 2 inputs delivered interleaved. distinct by hash of the decoded case"),
+          "join: <= 24 operations add input / remove input / section on input i / change of output (in a quarter of the configurations the second output refuses the flow definition: sections sent meanwhile are dropped, none reaches it, and every section after it was replaced is forwarded); non-trivial = >= 2 inputs delivered interleaved. distinct by hash of the decoded case"),
     assumptions=["stand-in shim/bitstream/mpeg/psi.h (PSI_HEADER_SIZE, PSI_PRIVATE_MAX_SIZE, psi_get_length, psi_validate) written from ISO/IEC 13818-1 2.4.4; the harness reference packer/parser/matcher does not use it",
                  "valid streams follow ISO 13818-1 2.4.4.1-2 (a section starts only in a payload with a pointer_field; stuffing only after a section end up to the payload end, next payload starts with pointer_field 0)",
                  "losses are signalled as ts_decaps does (flow.discontinuity on the next delivered payload); unflagged corruption only requires self-consistent outputs",
